@@ -171,6 +171,9 @@ def main():
         out = {"kind": "budget", "steps": count[0]}
     except BaseException as e:  # noqa
         out = {"kind": "raise", "type": type(e).__name__, "mro": [c.__name__ for c in type(e).__mro__], "repr": str(e)[:300], "steps": count[0]}
+        if isinstance(e, TypeError) and count[0] == 0:
+            # no line of the function ran: the call itself could not be made (argument binding) - a harness problem, not an observation
+            out = {"kind": "harness-error", "type": "TypeError", "repr": str(e)[:300]}
     oracle = req.get("oracle")
     if oracle:
         try:
